@@ -195,11 +195,11 @@ Definition queue_monitor (k : N) (ins : list N) : list N :=
                    | [n; size; class; full; shares; same] =>
                        [b2n (implb (size <? n) ((class =? 1) && (full =? 1) && (shares =? 0) && (same =? 1)))]
                    | _ => [77777] end else
-  (* kind 169 (C01 / C03 / C04 / C07): an add during which the heap refused the indirect table
+  (* kind 149 (C01 / C03 / C04 / C07): an add during which the heap refused the indirect table
      [buffers; queue size; class; the refused allocation was reached; shares; private and device-visible state unchanged;
       every other outstanding chain still reads as before]: the call ends in an error or a clean panic with nothing shared and
       nothing changed; if the driver copes with the refusal and accepts the submission, no outstanding chain is touched *)
-  if k =? 169 then match ins with
+  if k =? 149 then match ins with
                    | [n; size; class; hit; shares; same; others] =>
                        [b2n (implb (hit =? 1) (((class =? 1) || (class =? 2)) && (shares =? 0) && (same =? 1) || (class =? 0) && (others =? 1)))]
                    | _ => [77777] end else
